@@ -330,6 +330,7 @@ def shmConnect (s : Slot) : Slot :=
 
 /-- `qb_ipcs_us_connect` (all calls succeed) -/
 def sockConnect (s : Slot) : Slot :=
+  let s := s.call .chown                                          -- chown(dirname, auth.uid, auth.gid) (/repo 5cb555e)
   let s := ((s.call .open_).acq .fileCtl).acq .fdHdrTmp           -- qb_sys_mmap_file_open(control file)
   let s := (s.call .ftruncate).call .posix_fallocate
   let s := (s.call .chown).call .chmod
